@@ -240,7 +240,7 @@ package store
 // Request (unified endpoint): statements all read-only and level not STRONG => served from the
 // read-only pool under the level's rule; otherwise through the log, on a leader only.
 //@ func (*Store) Request
-//@   requires [built] s != nil && s.fsmTarget != nil && s.reqMarshaller != nil && s.throttler != nil
+//@   requires [built] s != nil && eqr != nil && s.fsmTarget != nil && s.reqMarshaller != nil && s.throttler != nil
 //@   assigns *, chanClosed, timerRunning, timerDur
 //@   ghost var pragmaOK bool = false
 //@   ghost var readyObs bool = false
